@@ -13,11 +13,35 @@ def memberValidAll : DP → List Call → Prop
      | .memberRemoved _ _ => upValid u c
      | _ => True) ∧ memberValidAll (upApply u c) cs
 
-theorem validAll_iff (u : DP) (cs : List Call) : validAll u cs ↔ setValidAll u cs ∧ memberValidAll u cs := by
+theorem validAll_of (u : DP) (cs : List Call) (h1 : setValidAll u cs) (h2 : memberValidAll u cs) : validAll u cs := by
   induction cs generalizing u with
-  | nil => simp [validAll, setValidAll, memberValidAll]
+  | nil => trivial
   | cons c cs ih =>
-    simp only [validAll, setValidAll, memberValidAll, ih]
-    cases c <;> simp [upValid, and_assoc, and_left_comm]
+    refine ⟨?_, ih _ h1.2 h2.2⟩
+    have a := h1.1
+    have b := h2.1
+    cases c <;> first | exact a | exact b | trivial
+
+/-- the modelled nodes never declare VTEPs, routes or pass-through objects -/
+theorem others_untouched : ∀ (cs : List Call) (u : DP), setValidAll u cs →
+    (upAll u cs).vtep = u.vtep ∧ (upAll u cs).route = u.route ∧ (upAll u cs).gen = u.gen
+  | [], u, _ => ⟨rfl, rfl, rfl⟩
+  | c :: cs, u, h => by
+    have ih := others_untouched cs (upApply u c) h.2
+    have hc : (upApply u c).vtep = u.vtep ∧ (upApply u c).route = u.route ∧ (upApply u c).gen = u.gen := by
+      have a := h.1
+      cases c with
+      | ipsetAdded id t => exact ⟨rfl, rfl, rfl⟩
+      | ipsetRemoved id => exact ⟨rfl, rfl, rfl⟩
+      | memberAdded id m => simp only [upApply]; split <;> exact ⟨rfl, rfl, rfl⟩
+      | memberRemoved id m => simp only [upApply]; split <;> exact ⟨rfl, rfl, rfl⟩
+      | policyActive k r => exact ⟨rfl, rfl, rfl⟩
+      | policyInactive k => exact ⟨rfl, rfl, rfl⟩
+      | profileActive k r => exact ⟨rfl, rfl, rfl⟩
+      | profileInactive k => exact ⟨rfl, rfl, rfl⟩
+      | endpointUpdate k v => cases v <;> exact ⟨rfl, rfl, rfl⟩
+      | _ => exact absurd a (by simp [mainCall])
+    simp only [upAll, List.foldl_cons] at ih ⊢
+    exact ⟨ih.1.trans hc.1, ih.2.1.trans hc.2.1, ih.2.2.trans hc.2.2⟩
 
 end CalicoVerif.C01
